@@ -320,6 +320,17 @@ func corruptions(valid []byte, subs []byte, each func([]byte)) {
 	each(append(append([]byte(nil), valid...), valid...))
 }
 
+// paddings: every substitute and every kind of white space before, after and around the valid text (plain-text parsers only:
+// JSON legitimately tolerates white space around a value)
+func paddings(valid []byte, subs []byte, each func([]byte)) {
+	for _, c := range append(append([]byte(nil), subs...), ' ', '\n', '\t', '\r', 0) {
+		each(append([]byte{c}, valid...))
+		each(append(append([]byte(nil), valid...), c))
+		each(append(append([]byte{c}, valid...), c))
+	}
+	each(append(append([]byte(nil), valid...), '\r', '\n'))
+}
+
 func randHex(rng *rand.Rand, n int, mixed bool) string {
 	const lo, up = "0123456789abcdef", "0123456789ABCDEF"
 	b := make([]byte, n)
@@ -404,6 +415,7 @@ func run(c *eng.Ctx) error {
 			r.rtDigest(h)
 			r.rtDigest(randHex(rng, 64, true)) // upper-case hexadecimal characters are hexadecimal
 			corruptions([]byte("sha256:"+h), append(subsHex, '5'), r.parseDigest)
+			paddings([]byte("sha256:"+h), subsHex, r.parseDigest)
 			for _, s := range []string{"", ":", "sha256:", "sha256", "sha1:" + h[:40], "sha512:" + h + h, "SHA256:" + h, h, "sha256:" + h + ":", ":sha256:" + h, "sha256::" + h[1:]} {
 				r.parseDigest([]byte(s))
 			}
@@ -411,6 +423,7 @@ func run(c *eng.Ctx) error {
 			h := randHex(rng, 64, false)
 			r.rtDigest(h)
 			corruptions([]byte(h), subsHex, r.parseDigestHex)
+			paddings([]byte(h), subsHex, r.parseDigestHex)
 			r.parseDigestHex(nil)
 		case "infohash-corrupt":
 			b := randBytes(rng, 20)
@@ -418,6 +431,7 @@ func run(c *eng.Ctx) error {
 			r.rtInfoHash(make([]byte, 20))
 			r.rtInfoHash(bytes.Repeat([]byte{0xff}, 20))
 			corruptions([]byte(hex.EncodeToString(b)), subsHex, r.parseInfoHash)
+			paddings([]byte(hex.EncodeToString(b)), subsHex, r.parseInfoHash)
 			r.parseInfoHash([]byte(randHex(rng, 40, true)))
 			r.parseInfoHash(nil)
 		case "peerid-corrupt":
@@ -426,6 +440,7 @@ func run(c *eng.Ctx) error {
 			r.rtPeerID(make([]byte, 20))
 			r.rtPeerID(bytes.Repeat([]byte{0xff}, 20))
 			corruptions([]byte(hex.EncodeToString(b)), subsHex, r.parsePeerID)
+			paddings([]byte(hex.EncodeToString(b)), subsHex, r.parsePeerID)
 			r.parsePeerID([]byte(randHex(rng, 40, true)))
 			r.parsePeerID(nil)
 			for i := 0; i < 40; i++ {
